@@ -361,6 +361,18 @@ func init() {
 				c.count("long-lines")
 			}
 		}
+		// the same lengths as the last line of the input, with and without a CR, the end of input arriving with the
+		// last bytes or on its own
+		for _, ln := range []int{65534, 65535, 65536, 65537} {
+			for _, tail := range []string{"", "\r"} {
+				for _, end := range []string{"eof", "weof", "fault"} {
+					doc := append([]byte("x\n"), append(bytes.Repeat([]byte("a"), ln), []byte(tail)...)...)
+					c.do(fmt.Sprintf("lib.scanner %s %s %s", end, encBytes(doc), encInts(randSizes(r, len(doc), 2+r.intn(2)))))
+					c.do(fmt.Sprintf("lib.scanner %s %s %d", end, encBytes(doc[2:]), len(doc)))
+					c.count("long-last-line")
+				}
+			}
+		}
 		for _, z := range []int{99, 100, 101, 102} {
 			sizes := []int{2}
 			for i := 0; i < z; i++ {
@@ -470,6 +482,22 @@ func init() {
 		for _, k := range []int{4095, 4096, 4097, 65535, 65536, 65537} {
 			c.do(fmt.Sprintf("io.sched srt %s eof %d", encBytes(big), k))
 			c.count("large")
+		}
+		// a line as long as the scanner can hold, one byte less and one more, ended by each terminator or by the end
+		// of the input: accepted or refused, the answer is the same for every delivery (the last bytes arriving with
+		// or without the end of input in particular)
+		for _, ln := range []int{65534, 65535, 65536} {
+			for _, tail := range []string{"", "\r", "\n", "\r\n", "\r\nx\n"} {
+				for fi, head := range []string{"1\n00:00:01,000 --> 00:00:02,000\n", "WEBVTT\n\n00:01.000 --> 00:02.000\n", "[Script Info]\n; "} {
+					f := []string{"srt", "vtt", "ssa"}[fi]
+					d := []byte(head + strings.Repeat("a", ln) + tail)
+					for _, end := range []string{"eof", "weof"} {
+						c.do(fmt.Sprintf("io.sched %s %s %s %s", f, encBytes(d), end, encInts(randSizes(r, len(d), r.intn(4)))))
+						c.do(fmt.Sprintf("io.sched %s %s %s %d", f, encBytes(d), end, len(d)))
+						c.count("long-lines")
+					}
+				}
+			}
 		}
 	}}
 
